@@ -36,6 +36,11 @@ def check(repo: Repo) -> Result:
     wrapping(repo, res)
     accessors(repo, res)
     metadata(repo, res)
+    from rules import c03, c18
+    from rules.common import share
+
+    r4 = res.rule("C16-R4", "converting calls (to / in_units / in_base ...) build their result from a product with the conversion factor on every path - a fresh buffer, never a view of the input", floor=3)
+    share(res, r4, "C03", lambda t: c03.apply_idiom(repo, t), ["C03-R2"], want=lambda k: k in ("in_units", "in_units:result", "in_base", "in_base:result"), min_keys=3)
     return res
 
 
@@ -214,4 +219,5 @@ MUTANTS = [
     Mutant("coerce-relabels", ARR, "_coerce_iterable_units", "ret.append(datum.in_units(ff.units))", "ret.append(datum)", ("C16-R2",)),
     Mutant("getitem-drops-name", ARR, "unyt_array.__getitem__", "ret = unyt_quantity(ret, bypass_validation=True, name=self.name)", "ret = unyt_quantity(ret, bypass_validation=True)", ("C16-R3", "C16-R1")),
     Mutant("finalize-drops-units", ARR, "unyt_array.__array_finalize__", '        self.units = getattr(obj, "units", NULL_UNIT)\n', "        self.units = NULL_UNIT\n", ("C16-R3", "C07-R3")),
+    Mutant("in-units-unit-factor-view", ARR, "unyt_array.in_units", "ret = np.asarray(self.ndview * conversion_factor, dtype=new_dtype)", "ret = np.asarray(self.ndview, dtype=new_dtype) if conversion_factor == 1 else np.asarray(self.ndview * conversion_factor, dtype=new_dtype)", ("C16-R4",)),
 ]
